@@ -1,7 +1,7 @@
 -------------------------- MODULE ShuffleBuffer_Trace --------------------------
 (* Validates pull / yield logs of the real shuffle_buffer (real pseudo-random generator) against           *)
 (* ShuffleBuffer.tla: the index chosen at each yield is inferred from the element yielded.                 *)
-EXTENDS ShuffleBuffer, Json, IOUtils, TLCExt
+EXTENDS ShuffleBuffer, Json, IOUtils, TLC, TLCExt
 VARIABLES tid, l
 tvars == <<vars, tid, l>>
 TraceLogs == JsonDeserialize(IOEnv.TRACE_FILE)
